@@ -16,7 +16,7 @@ PLAN = dict(
     jobs=both("c17.history", _CFG, shards=(2, 8), floor=2000)
     + both("c17.reader", _CFG, shards=(1, 4), floor=300)
     + both("c17.faults", _CFG, shards=(1, 2), floor=1000),
-    exhaustive_note="c17.faults enumerates completely: 28 configurations x 6 fault shapes x every entropy-source call index of a fixed "
+    exhaustive_note="c17.faults enumerates completely: 28 configurations (thorough: x every strength class of the wrapper) x 6 fault shapes x every entropy-source call index of a fixed "
                     "Read script that crosses the reseed interval four times (level fault_enumeration for that workload)",
     assumptions=["harness/ref/drbg implements SP 800-90A Rev.1 Hash_DRBG/HMAC_DRBG/CTR_DRBG(df) and the GM/T 0105 variations the package "
                  "documents (validated before every run against the 53 CAVP / GM/T 0105 vectors of the package's table tests incl. every "
